@@ -557,28 +557,76 @@ func (c *Ctx) runInputs(kinds *core.Kinds) {
 			rootP = prm
 		}
 	}
-	sites := p.RegionCalls(ib, core.GAddOverwrite)
 	var resultAcc ssa.Value
 	for _, r := range core.Returns(ib) {
 		if len(r.Results) > 0 && !core.IsNilConst(r.Results[0]) {
 			resultAcc = r.Results[0]
 		}
 	}
-	for i, s := range sites {
+	// registration instances: an AddOverwrite call together with the vertex literal it registers. When the call sits
+	// in a private helper or a local function literal of the input builder, there is one instance per call site of
+	// that helper, read with the helper's parameters bound to that site's arguments.
+	type reg struct {
+		add    ssa.CallInstruction
+		lit    *ssa.Alloc
+		site   ssa.CallInstruction // the call of the helper (nil when the registration is inline)
+		helper *ssa.Function
+		bind   func(ssa.Value) ssa.Value
+	}
+	ident := func(v ssa.Value) ssa.Value { return v }
+	var regs []reg
+	for _, s := range p.RegionCalls(ib, core.GAddOverwrite) {
+		F := s.Parent()
+		v := core.Strip(s.Common().Args[1])
+		if F == ib || !p.PrivateHelper(F) {
+			al, _ := v.(*ssa.Alloc)
+			regs = append(regs, reg{s, al, nil, nil, ident})
+			continue
+		}
+		for _, cs := range p.Callers(F) {
+			cs := cs
+			bind := func(x ssa.Value) ssa.Value {
+				for i := 0; i < 3; i++ {
+					if prm, ok := core.Strip(x).(*ssa.Parameter); ok && prm.Parent() == F {
+						for k, q := range F.Params {
+							if q == prm && k < len(cs.Common().Args) {
+								x = cs.Common().Args[k]
+							}
+						}
+						continue
+					}
+					if d := p.DerefFree(x); d != nil && d != x {
+						x = d
+						continue
+					}
+					break
+				}
+				return x
+			}
+			al, _ := core.Strip(bind(v)).(*ssa.Alloc)
+			regs = append(regs, reg{s, al, cs, F, bind})
+		}
+	}
+	isRoot := func(v ssa.Value, bind func(ssa.Value) ssa.Value) bool {
+		return rootP != nil && p.Bind(core.Strip(bind(v))) == ssa.Value(rootP)
+	}
+	for i, rg := range regs {
+		s := rg.add
 		key := fmt.Sprintf("inputBuilder|input#%d", i+1)
 		pos := p.InstrPos(s)
-		v := core.Strip(s.Common().Args[1])
-		al, _ := v.(*ssa.Alloc)
+		if rg.site != nil {
+			pos = p.InstrPos(rg.site)
+		}
 		fields := map[string]ssa.Value{}
 		kind := ""
-		if al != nil {
-			kind = core.NamedOf(al.Type())
-			for _, ref := range *al.Referrers() {
+		if rg.lit != nil {
+			kind = core.NamedOf(rg.lit.Type())
+			for _, ref := range *rg.lit.Referrers() {
 				if fa, ok := ref.(*ssa.FieldAddr); ok {
 					fr, _ := core.AsFieldAddr(fa)
 					for _, r2 := range *fa.Referrers() {
 						if st, ok := r2.(*ssa.Store); ok {
-							fields[fr.Field] = st.Val
+							fields[fr.Field] = rg.bind(st.Val)
 						}
 					}
 				}
@@ -588,7 +636,7 @@ func (c *Ctx) runInputs(kinds *core.Kinds) {
 		valOK := fields["Value"] != nil && isRangeVal(fields["Value"])
 		typeOK := false
 		if tv := fields["Type"]; tv != nil {
-			if cl, ok := tv.(*ssa.Call); ok && core.CalleeName(cl.Common()) == "(reflect.Value).Type" && cl.Common().Args[0] == fields["Value"] {
+			if cl, ok := tv.(*ssa.Call); ok && core.CalleeName(cl.Common()) == "(reflect.Value).Type" && rg.bind(cl.Common().Args[0]) == fields["Value"] {
 				typeOK = true
 			}
 			if isRangeKey(tv) {
@@ -599,21 +647,47 @@ func (c *Ctx) runInputs(kinds *core.Kinds) {
 		c.R.Add("INPUT", key+"|vertex-carries-supplied-value", "inputBuilder", pos, valOK && typeOK && nameOK && (kind == kinds.Value || kind == kinds.Out),
 			"each supplied value is registered as a vertex carrying that value, labelled with its own name/type (AddOverwrite: it replaces the coinciding requirement vertex)",
 			fmt.Sprintf("kind=%s value=%v type=%v name=%v", kind, valOK, typeOK, nameOK))
-		// edge to the root and tracked in the returned list — in the block of the registration, directly or through a
-		// private helper called there with the registered vertex (and the root)
+		// edge to the root and tracked in the returned list — in the block of the registration, directly, inside the
+		// helper that registers, or through a private helper called there with the registered vertex (and the root)
 		edgeOK, tracked := false, false
-		isRoot := func(v ssa.Value) bool { return rootP != nil && p.Bind(core.Strip(v)) == ssa.Value(rootP) }
+		// the registered vertex as a value: the AddOverwrite result (inside its function) …
+		isVertex := func(v ssa.Value, bind func(ssa.Value) ssa.Value) bool {
+			v = core.Strip(v)
+			if v == s.Value() {
+				return true
+			}
+			// … or, at the helper's call site, the helper's result when it returns that vertex
+			if rg.site != nil {
+				if sv, ok := rg.site.(ssa.Value); ok && v == sv {
+					for _, hr := range core.Returns(rg.helper) {
+						for _, o := range hr.Results {
+							if core.Strip(o) == s.Value() {
+								return true
+							}
+						}
+					}
+				}
+			}
+			return false
+		}
+		regBlock := s.Block()
 		type viaHelper struct {
 			h    *ssa.Function
 			call ssa.CallInstruction
 		}
 		var helpers []viaHelper
-		for _, in := range s.Block().Instrs {
-			if hc, ok := in.(ssa.CallInstruction); ok {
-				if h := hc.Common().StaticCallee(); p.PrivateHelper(h) {
-					for _, a := range hc.Common().Args {
-						if a == s.Value() {
-							helpers = append(helpers, viaHelper{h, hc})
+		scanBlocks := []*ssa.BasicBlock{regBlock}
+		if rg.site != nil {
+			scanBlocks = append(scanBlocks, rg.site.Block())
+		}
+		for _, blk := range scanBlocks {
+			for _, in := range blk.Instrs {
+				if hc, ok := in.(ssa.CallInstruction); ok && hc != rg.site {
+					if h := hc.Common().StaticCallee(); p.PrivateHelper(h) {
+						for _, a := range hc.Common().Args {
+							if isVertex(a, ident) {
+								helpers = append(helpers, viaHelper{h, hc})
+							}
 						}
 					}
 				}
@@ -630,12 +704,16 @@ func (c *Ctx) runInputs(kinds *core.Kinds) {
 			return nil
 		}
 		for _, e := range p.RegionCalls(ib, core.GAddEdge, core.GAddEdgeW) {
-			if e.Parent() == s.Parent() && e.Common().Args[1] == s.Value() && isRoot(e.Common().Args[2]) && e.Block() == s.Block() {
+			if e.Parent() == s.Parent() && isVertex(e.Common().Args[1], ident) && isRoot(e.Common().Args[2], rg.bind) &&
+				(e.Block() == regBlock || (rg.helper != nil && postDominatesEntry(rg.helper, e.Block()))) {
+				edgeOK = true
+			}
+			if rg.site != nil && e.Parent() == rg.site.Parent() && e.Block() == rg.site.Block() && isVertex(e.Common().Args[1], ident) && isRoot(e.Common().Args[2], ident) {
 				edgeOK = true
 			}
 			for _, vh := range helpers {
 				if e.Parent() == vh.h && postDominatesEntry(vh.h, e.Block()) {
-					if a1, a2 := argOf(vh, e.Common().Args[1]), argOf(vh, e.Common().Args[2]); a1 == s.Value() && a2 != nil && isRoot(a2) {
+					if a1, a2 := argOf(vh, e.Common().Args[1]), argOf(vh, e.Common().Args[2]); a1 != nil && isVertex(a1, ident) && a2 != nil && isRoot(a2, rg.bind) {
 						edgeOK = true
 					}
 				}
@@ -644,12 +722,17 @@ func (c *Ctx) runInputs(kinds *core.Kinds) {
 		if resultAcc != nil {
 			for _, ap := range appendSites(ib, resultAcc) {
 				for _, e := range appendedValues(ap) {
-					if e == s.Value() && ap.Block() == s.Block() {
+					if ap.Parent() == s.Parent() && isVertex(e, ident) && (ap.Block() == regBlock || (rg.helper != nil && postDominatesEntry(rg.helper, ap.Block()))) {
+						tracked = true
+					}
+					if rg.site != nil && ap.Parent() == rg.site.Parent() && ap.Block() == rg.site.Block() && isVertex(e, ident) {
 						tracked = true
 					}
 					for _, vh := range helpers {
-						if ap.Parent() == vh.h && postDominatesEntry(vh.h, ap.Block()) && argOf(vh, e) == s.Value() {
-							tracked = true
+						if ap.Parent() == vh.h && postDominatesEntry(vh.h, ap.Block()) {
+							if a := argOf(vh, e); a != nil && isVertex(a, ident) {
+								tracked = true
+							}
 						}
 					}
 				}
